@@ -46,6 +46,7 @@ type simFault struct {
 	Key     string // optional exact key (overrides Ordinal)
 	Mode    simMode
 	Mask    uint64 // tilebatch crash: which of the parallel uploads took effect (bit i%64 for sorted key i)
+	Index   int    // Class "index": the Index-th non-inline operation of the phase (0-based)
 	fired   bool
 }
 
@@ -56,6 +57,9 @@ func (f simFault) String() string {
 	}
 	if f.Class == "tilebatch" {
 		s += fmt.Sprintf("/mask=%x", f.Mask)
+	}
+	if f.Class == "index" {
+		s = fmt.Sprintf("op%d:%s", f.Index, f.Mode)
 	}
 	return s
 }
@@ -285,11 +289,17 @@ func (p *simProc) decide(op *simOp) simMode {
 			}
 			continue
 		}
-		if f.Class != cls {
+		if f.Class == "index" {
+			if f.Index != p.ops-1 {
+				continue
+			}
+		} else if f.Class != cls {
 			continue
 		}
 		match := false
 		switch {
+		case f.Class == "index":
+			match = true
 		case f.Key != "":
 			match = f.Key == op.Key
 		case cls == "tile" && len(p.batchKeys) > 0:
@@ -366,7 +376,8 @@ func (b *simBackend) Upload(ctx context.Context, key string, data []byte, opts *
 		if opts != nil {
 			o = *opts
 		}
-		if had && w.opts[key].Immutable && !bytes.Equal(old, data) {
+		writeOnce := w.opts[key].Immutable || op.Class == "tile" || op.Class == "issuer" || op.Class == "staging"
+		if had && writeOnce && !bytes.Equal(old, data) {
 			w.violate("immutable object %q rewritten with different bytes (op %d, proc %d)", key, op.N, p.id)
 		}
 		w.objs[key] = bytes.Clone(data)
